@@ -209,6 +209,18 @@ pub fn tsc_duration_since(later: u64, earlier: u64, frequency: u64) -> u128 {
         .picos
 }
 
+/// The same conversion through the `Timestamp::duration_since` dispatcher that
+/// the sampling loop and `measure_precision` use.
+pub fn timestamp_duration_since(later: u64, earlier: u64, frequency: u64) -> u128 {
+    let frequency = NonZeroU64::new(frequency).expect("frequency");
+    crate::time::Timestamp::Tsc(TscTimestamp { value: later })
+        .duration_since(
+            crate::time::Timestamp::Tsc(TscTimestamp { value: earlier }),
+            Timer::Tsc { frequency },
+        )
+        .picos
+}
+
 pub fn fine_duration_from(duration: Duration) -> u128 {
     FineDuration::from(duration).picos
 }
